@@ -12,7 +12,7 @@ from collections import namedtuple
 
 from . import AnalysisError
 from .model import ClassInfo, External, FunctionInfo, attr_type, dotted, \
-    mangle, walk_local
+    element_type, mangle, walk_local
 
 K = namedtuple('K', 'nxt exc ret brk cont')
 
@@ -1002,6 +1002,8 @@ class Builder:
         if f.params and head == f.params[0] and f.cls is not None and \
                 not f.is_static and head == 'self':
             return self.norm_self(fr.self_path + rest, fr)
+        if self.free_self(head, fr):
+            return self.norm_self(fr.self_path + rest, fr)
         if head in fr.bindings and head not in self.reassigned(f):
             e, pf, how = fr.bindings[head]
             if how == 'self' and f.cls is None:
@@ -1032,6 +1034,15 @@ class Builder:
             return ('%free', head) + rest
         q = self.prog.qualify(f.module, (head,))
         return ('@' + q,) + rest
+
+    def free_self(self, head, fr):
+        """`self` of the enclosing method, used as a free variable inside a
+        nested function (closure) analysed in the method's class context."""
+        f = fr.func
+        return (head == 'self' and f.outer is not None and
+                fr.cls is not None and head not in f.params and
+                head not in self.local_defs(f) and
+                f.outer.params[:1] == ['self'])
 
     def reassigned(self, func):
         return self.local_defs(func).keys()
@@ -1088,6 +1099,16 @@ class Builder:
 
     def local_type(self, name, fr):
         defs = self.local_defs(fr.func).get(name)
+        if defs and all(d is None for d in defs) and fr.cls is not None:
+            # loop variable over a collection with a frozen element type
+            for n in walk_local(fr.func.node):
+                if isinstance(n, ast.For) and isinstance(n.target, ast.Name) \
+                        and n.target.id == name:
+                    dn = dotted(n.iter)
+                    if dn and len(dn) == 2 and dn[0] == 'self':
+                        t = element_type(self.prog, fr.cls, dn[1])
+                        if t is not None:
+                            return t
         if defs and len(defs) == 1 and isinstance(defs[0], ast.Call):
             dn = dotted(defs[0].func)
             obj = self.prog.resolve_dotted(fr.func.module, dn) if dn else None
@@ -1123,7 +1144,8 @@ class Builder:
         dn = (dn[0],) + tuple(mangle(f.cls, a) for a in dn[1:])
         head = dn[0]
         is_self = (f.params and head == f.params[0] and f.cls is not None
-                   and not f.is_static and not f.is_classmethod)
+                   and not f.is_static and not f.is_classmethod) or \
+            self.free_self(head, fr)
         if not is_self and head in fr.bindings and \
                 fr.bindings[head][2] == 'self' and f.cls is None:
             is_self = True     # module function bound as a method
